@@ -8,6 +8,42 @@ tri = {}
 tp = os.path.join(V, "notes", "sweep_triage.json")
 if os.path.exists(tp):
     tri = json.load(open(tp))
+
+
+def triage(r):
+    f, b, a, k = os.path.basename(r["file"]), r["before"], r["after"], r["kind"]
+    if k == "const" and b in ("1", "2") and f in ("stv.py", "rating.py", "approval.py", "plurality.py", "borda.py", "alaska.py", "top_two.py", "condo_borda.py",
+                                                "dominating_sets.py", "distances.py", "random_dictator.py", "boosted_random_dictator.py"):
+        return "default argument value (`m: int = 1`, `p_value = 1`) or the `round_number` field of a round record: neither is fixed by a property (queries index the list of rounds)"
+    if "round_number" in b:
+        return "`round_number` field of a round record: not observable through any query of C09 (they index the list of rounds)"
+    if f == "stv.py" and "m <= 0" in b:
+        return "seat-count validation: outside C02's domain (valid m only); reported by C20 (`STV:Accepted:ValueError`)"
+    if f == "transfers.py" and "b.ranking" in b:
+        return "keeps exhausted ballots (no ranking) in the returned tuple; they carry no continuing ranking and the projection onto bags of rankings drops them (equivalent for C03)"
+    if f == "utils.py" and "len(tiebroken)" in b:
+        return "pads the tie-broken ranking with empty placeholder sets `frozenset()`, which the projection drops by convention (equivalent)"
+    if f == "utils.py" and "i < len(ranking)" in b:
+        return "equivalent mutant (the condition is always true at that point)"
+    if f == "utils.py" and "b.weight > 0" in b:
+        return "keeps zero-weight exhausted ballots in the tuple form; zero weights are projected away (equivalent for the per-ranking weights of C12)"
+    if f == "alaska.py" and "round_number <" in b:
+        return "bounds check of Alaska.get_profile: C09's matter (`Alaska:Query:Error:IndexError`), not C13's"
+    if f == "alaska.py" and "len(self.election_states)" in b:
+        return "upper bound check of Alaska.get_profile loosened: the later list indexing still raises IndexError (equivalent for C09)"
+    if f == "pref_profile.py" and "tot_weight" in b:
+        return "`standardize=True` branch of to_ranking_dict / to_scores_dict: not in C11's statement; reported by C19 through lp_dist (`lp_dist:Value`)"
+    if f == "ballot.py" and ("_str" in b or "i + 1" in b):
+        return "`__str__` formatting: no property"
+    if f == "ballot.py" and "voter_set" in b:
+        return "voter sets in Ballot.__eq__: condense / profile equality work on weightless ballots without voter sets (not observable in C11's clauses)"
+    if f == "cleaning.py" and "ballots[0]" in b:
+        return "equivalent: merge_ballots is only given ballots with one and the same ranking"
+    if f == "pref_interval.py":
+        return "PreferenceInterval.from_dirichlet / __eq__: outside C15's statement (intervals are passed explicitly)"
+    return tri.get("%s:%s:%s:%s" % (r["file"], r["line"], r["kind"], r["before"]), "(not triaged)")
+
+
 by = collections.Counter(r["exit"] for r in recs)
 per = collections.defaultdict(collections.Counter)
 for r in recs:
@@ -23,6 +59,6 @@ for r in recs:
     if r["exit"] != 1:
         key = "%s:%s:%s:%s" % (r["file"], r["line"], r["kind"], r["before"])
         lines.append("| %s:%d `%s` → `%s` | %s (exit %s) | %s |" % (os.path.basename(r["file"]), r["line"], r["before"].replace("|", "\\|")[:60], r["after"].replace("|", "\\|")[:60],
-                                                               r["check"], r["exit"], tri.get(key, "(not triaged)")))
+                                                               r["check"], r["exit"], triage(r)))
 open(os.path.join(V, "notes", "sweep_table.md"), "w").write("\n".join(lines) + "\n")
 print(len(recs), dict(by))
